@@ -206,3 +206,37 @@ def pipeline(tier, rep, calibrate=True):
         rep.cov["modules"]["Sum"]["calibration_events_std"] = ctv["events"]
         rep.cov["modules"]["Sum"]["not_provided_by_std"] = [u[len("UNSUPPORTED "):] for u in cst["unsupported"]]
     return tv, st
+
+
+def replay(path):
+    """Re-execute one saved deviating event on the current tree: rebuild the model of its instantiation, take the
+    planned script of the very same edge (same pre-state, call and arguments), run it and validate the trace again."""
+    j = json.load(open(path))
+    ev = j["event"]
+    inst = ev["inst"]
+    kind, alts, src, mix, grp = INSTS[inst]
+    r = vlib.tlc_mc("Sum.tla", "Sum_%s.cfg" % kind, "sum_replay_" + inst, workers=2, constants=_consts(kind, alts, src, mix), heap="2g")
+    gen = [t for t in r["gen"] if t["op"] != "init"]
+    s0 = json.dumps(S0, sort_keys=True)
+    want = [t for t in gen if t["op"] == ev["op"] and t["o"] == ev["o"] and t["x"] == ev["x"] and t["pre"] == ev["pre"]]
+    if not want:
+        raise vlib.ModelFailure("replay: the model of %s has no edge for the saved event" % inst)
+    sc, st = vlib.plan_edges(gen, _key, lambda n: n == s0, _call, follow=lambda t: t["op"] in PATH_OPS)
+    script = [s_ for s_ in sc if s_[-1] == _call(want[0])][:1]
+    # the planner emits one script per edge in the order of gen: pick by index to keep the exact pre-state
+    idx = gen.index(want[0])
+    script = [sc[idx]]
+    sp = os.path.join(vlib.workdir("scripts"), "sum_replay.ndjson")
+    vlib.write_scripts(script, sp)
+    have = probes()
+    pf = ["-D%s=%d" % (k, 1 if v else 0) for k, v in sorted(have.items())]
+    b = vlib.build("sum_driver.cpp", "sum_replay_g%d" % grp, flags=["-DVH_GROUP=%d" % grp] + pf)
+    tp = os.path.join(vlib.workdir("traces"), "sum_replay.ndjson")
+    vlib.run([b, "replay", inst, sp], tp)
+    tv = vlib.tlc_tv("SumTrace.tla", "SumTrace.cfg", tp, "sum_tv_replay")
+    devs = [d for d in tv["deviations"] if not d["kind"].startswith("life")]
+    for d in devs:
+        print("VIOLATION property=C07 replay=%s kind=%s op=%s" % (path, d["kind"], d.get("ev", {}).get("op")))
+    if not devs:
+        print("replay: %d event(s) re-executed, no deviation on the current tree" % tv["events"])
+    return 1 if devs else 0
